@@ -6,7 +6,7 @@
 (* mentions plans, iterators, indexes or storage.                          *)
 (*                                                                         *)
 (* Graph  G = [nodes |-> <<[id, labels, props]..>>,                        *)
-(*             rels  |-> <<[src, type, tcp, dst, props]..>>]               *)
+(*             rels  |-> <<[src, type, tcp, dst, props, dead]..>>]         *)
 (*   labels : sequence of strings; props : sequence of <<key, value, ..>>; *)
 (*   parallel relationships are distinct entries of rels (an entry's index *)
 (*   is its identity); tcp = code points of the type name.                 *)
@@ -85,13 +85,14 @@ NodeRec(G, id) == G.nodes[CHOOSE i \in 1..Len(G.nodes) : G.nodes[i].id = id]
 PropIn(props, key) ==
   IF \E i \in 1..Len(props) : props[i][1] = key
   THEN props[CHOOSE i \in 1..Len(props) : props[i][1] = key][2] ELSE Null
-PropOf(G, v, key) ==
-  CASE v[1] = "node" -> PropIn(NodeRec(G, v[2]).props, key)
-    [] v[1] = "rel" -> PropIn(G.rels[v[3]].props, key)
+HasNode(G, id) == \E i \in 1..Len(G.nodes) : G.nodes[i].id = id
+PropOf(G, v, key) ==   \* an entity the graph does not hold (yet) has no properties
+  CASE v[1] = "node" -> IF HasNode(G, v[2]) THEN PropIn(NodeRec(G, v[2]).props, key) ELSE Null
+    [] v[1] = "rel" -> IF v[3] <= Len(G.rels) THEN PropIn(G.rels[v[3]].props, key) ELSE Null
     [] v[1] = "map" -> (IF \E i \in 1..Len(v[2]) : v[2][i][1] = key
                         THEN v[2][CHOOSE i \in 1..Len(v[2]) : v[2][i][1] = key][2] ELSE Null)
     [] OTHER -> Null
-HasLabel(G, id, lab) == \E i \in 1..Len(NodeRec(G, id).labels) : NodeRec(G, id).labels[i] = lab
+HasLabel(G, id, lab) == HasNode(G, id) /\ \E i \in 1..Len(NodeRec(G, id).labels) : NodeRec(G, id).labels[i] = lab
 
 (***************************************************************************)
 (* Expressions (no aggregates here)                                        *)
@@ -139,7 +140,9 @@ NodeFits(G, r, np, id) ==
   /\ \A i \in 1..Len(np.props) : Eq3(PropIn(NodeRec(G, id).props, np.props[i][1]), Eval(G, r, np.props[i][2])) = T
   /\ (Bound(r, np.v) => r[np.v] = NodeV(id))
 
-TypeFits(G, rp, j) == Len(rp.types) = 0 \/ \E i \in 1..Len(rp.types) : rp.types[i] = G.rels[j].type
+TypeFits(G, rp, j) ==
+  /\ ~G.rels[j].dead     \* deleted relationships keep their position (CypherUpdate) and match nothing
+  /\ (Len(rp.types) = 0 \/ \E i \in 1..Len(rp.types) : rp.types[i] = G.rels[j].type)
 
 (* relationship instances leaving `cur` along rp's direction: set of <<j, other end>>.
    An undirected step over a self loop yields the loop once. *)
